@@ -349,6 +349,20 @@ func c10Scenarios(thorough bool) []c10Scenario {
 				}
 			}
 		}
+		// the client stops reading its input (the k-th write blocks) and then misbehaves on its output
+		for k := 0; k < total; k++ {
+			for _, f := range []string{"unknown", "garbage", "oversize", "cut", "exit1"} {
+				if !thorough && total > 2 && f != "unknown" && f != "exit1" {
+					continue
+				}
+				out = append(out, c10Scenario{Senders: ss, Fault: f, FaultAt: 0, CutBytes: 3, StdinFault: "block", StdinFaultAt: k, Main: "closewait"})
+			}
+		}
+		for _, f := range []string{"closeout"} {
+			for k := 0; k <= total; k++ {
+				out = append(out, c10Scenario{Senders: ss, Fault: f, FaultAt: k, StdinFault: "none", Main: "closewait"})
+			}
+		}
 		for _, sf := range []string{"closedpipe", "ioerr"} {
 			for k := 0; k < total; k++ {
 				out = append(out, c10Scenario{Senders: ss, Fault: "none", StdinFault: sf, StdinFaultAt: k, Main: "closewait"})
